@@ -6,7 +6,7 @@ CONSTANTS
   TokContract <- Seq1
   TokDenom <- Seq1
   Amounts = {1, 2, 3, 5}
-  InitBal = 4
+  InitBal = 12
   BatchEvery = 50
   TimeoutBlocks = 300
   Jumps = {1, 57598, 57599, 57600}
